@@ -1546,6 +1546,43 @@ pub fn run(out: &mut Out, seed: u64, thorough: bool, replay: Option<&str>) {
             d.s.shutdown();
         }
     }
+    // ---- C2: a second caller joins a lookup that is still running after forged answers arrived (C02):
+    //          it is handed what the lookup remembers, which must be authentic too
+    for forge in [1u8, 2, 3, 5, 6, 7] {
+        t0 += 10_000_000_000_000;
+        let mut net = VNet::new(&mut rng, 5, true);
+        let item = MutableItem::new(&key_from_seed(9), b"the genuine value", 7, None);
+        for (i, p) in net.peers.iter_mut().enumerate() {
+            match i {
+                0 => {
+                    // honest holder, slow: the forged answers come first
+                    p.muts.insert(*item.target(), (item.value().to_vec(), *item.key(), item.seq(), *item.signature()));
+                    p.extra_delay = 120 * MS;
+                }
+                1 => p.mode = 1, // silent: keeps the lookup running until its request expires
+                _ => p.forge = forge,
+            }
+        }
+        let boot = vec![net.peers[0].addr, net.peers[2].addr];
+        let mut d = Driver::new(out, rng.next(), net);
+        d.begin("c", &boot, None, rng.next() % 1_000_000 + 1, t0);
+        d.run_for(2 * SEC, 10 * MS);
+        let pk = hex(key_from_seed(9).verifying_key().as_bytes());
+        let t = imm_target(b"the real value");
+        let ih = Id::from_bytes(rng.id20()).expect("id");
+        let calls = [format!("get_mut k={pk} salt=none seq=none"), format!("get_imm t={}", hex(t.as_bytes())), format!("get_speers ih={}", hex(ih.as_bytes()))];
+        for call in calls.iter() {
+            d.api(call.clone());
+            d.run_for(60 * MS, 5 * MS);
+            d.api(call.clone());
+            d.run_for(100 * MS, 5 * MS);
+            d.api(call.clone());
+            d.settle(20 * SEC, 10 * MS);
+        }
+        d.finish();
+        d.out.mark_distinct(fnv(format!("C2{forge}").as_bytes()));
+        d.s.shutdown();
+    }
     // ---- C': replay of a genuine (key, seq, signature) with another value, before and after the
     //          honest answer reached the lookup
     for forged_first in [false, true] {
